@@ -128,6 +128,7 @@ type Path struct {
 	eagerOffsets   bool
 	timedSleep     bool
 	randZero       bool
+	detSched       bool
 	fineFuncs      map[string]bool
 	httpServeCalls int
 }
